@@ -23,10 +23,9 @@ func DisableHPA(cli client.Client, object client.Object) error {
 	}
 	targetRef, found, err := unstructured.NestedFieldCopy(hpa.Object, "spec", "scaleTargetRef")
 	if err != nil || !found {
-		return fmt.Errorf("get HPA targetRef for workload %v failed, because %s", klog.KObj(object), err.Error())
+		return fmt.Errorf("get HPA targetRef for workload %v failed, because %v", klog.KObj(object), err)
 	}
-	ref := targetRef.(map[string]interface{})
-	name, version, kind := ref["name"].(string), ref["apiVersion"].(string), ref["kind"].(string)
+	name, version, kind := scaleTargetRefOf(targetRef)
 	if !strings.HasSuffix(name, HPADisableSuffix) {
 		body := fmt.Sprintf(`{"spec":{"scaleTargetRef":{"apiVersion": "%s", "kind": "%s", "name": "%s"}}}`, version, kind, addSuffix(name))
 		if err = cli.Patch(context.TODO(), hpa, client.RawPatch(types.MergePatchType, []byte(body))); err != nil {
@@ -43,10 +42,9 @@ func RestoreHPA(cli client.Client, object client.Object) error {
 	}
 	targetRef, found, err := unstructured.NestedFieldCopy(hpa.Object, "spec", "scaleTargetRef")
 	if err != nil || !found {
-		return fmt.Errorf("get HPA targetRef for workload %v failed, because %s", klog.KObj(object), err.Error())
+		return fmt.Errorf("get HPA targetRef for workload %v failed, because %v", klog.KObj(object), err)
 	}
-	ref := targetRef.(map[string]interface{})
-	name, version, kind := ref["name"].(string), ref["apiVersion"].(string), ref["kind"].(string)
+	name, version, kind := scaleTargetRefOf(targetRef)
 	if strings.HasSuffix(name, HPADisableSuffix) {
 		body := fmt.Sprintf(`{"spec":{"scaleTargetRef":{"apiVersion": "%s", "kind": "%s", "name": "%s"}}}`, version, kind, removeSuffix(name))
 		if err = cli.Patch(context.TODO(), hpa, client.RawPatch(types.MergePatchType, []byte(body))); err != nil {
@@ -78,8 +76,7 @@ func findHPA(cli client.Client, object client.Object, version string) *unstructu
 		if err != nil || !found {
 			continue
 		}
-		ref := scaleTargetRef.(map[string]interface{})
-		name, version, kind := ref["name"].(string), ref["apiVersion"].(string), ref["kind"].(string)
+		name, version, kind := scaleTargetRefOf(scaleTargetRef)
 		if version == object.GetObjectKind().GroupVersionKind().GroupVersion().String() &&
 			kind == object.GetObjectKind().GroupVersionKind().Kind &&
 			removeSuffix(name) == object.GetName() {
@@ -88,6 +85,16 @@ func findHPA(cli client.Client, object client.Object, version string) *unstructu
 	}
 	klog.Infof("No HPA found for workload %v", klog.KObj(object))
 	return nil
+}
+
+// scaleTargetRefOf reads name, apiVersion and kind of a scaleTargetRef; apiVersion is optional in the HPA API,
+// absent or malformed fields read as ""
+func scaleTargetRefOf(scaleTargetRef interface{}) (name, version, kind string) {
+	ref, _ := scaleTargetRef.(map[string]interface{})
+	name, _ = ref["name"].(string)
+	version, _ = ref["apiVersion"].(string)
+	kind, _ = ref["kind"].(string)
+	return name, version, kind
 }
 
 func addSuffix(HPARefName string) string {
